@@ -8,8 +8,9 @@ use num::Float;
 use sliding_features::{pure_functions::*, rolling::*, sliding_windows::*, View};
 use std::fmt::Debug;
 
-pub trait Scalar: Float + Debug + 'static {}
-impl<T: Float + Debug + 'static> Scalar for T {}
+/// Everything f32 and f64 offer that a refactor of the crate might plausibly start to require of its scalar.
+pub trait Scalar: Float + Debug + Default + std::fmt::Display + std::fmt::LowerExp + num::traits::NumAssign + num::traits::FloatConst + std::iter::Sum + std::iter::Product + Into<f64> + 'static {}
+impl<T: Float + Debug + Default + std::fmt::Display + std::fmt::LowerExp + num::traits::NumAssign + num::traits::FloatConst + std::iter::Sum + std::iter::Product + Into<f64> + 'static> Scalar for T {}
 
 pub trait DynView<T: Scalar>: View<T> {
     fn try_clone(&self) -> Option<Box<dyn DynView<T>>>;
